@@ -125,6 +125,18 @@ def _table(repo, f, it):
             c = repo.chase(f.mod, base)
             if c in repo.classes:
                 cq = c
+        if cq is None:
+            # a local bound once to a construction cls(..) / K(..): the class-level table of that class
+            binds = [n for n in ast.walk(f.node) if isinstance(n, ast.Name) and n.id == base and isinstance(n.ctx, (ast.Store, ast.Del))]
+            if len(binds) == 1 and base not in f.params:
+                for n in ast.walk(f.node):
+                    if isinstance(n, ast.Assign) and len(n.targets) == 1 and n.targets[0] is binds[0] and isinstance(n.value, ast.Call) and isinstance(n.value.func, ast.Name):
+                        if n.value.func.id == "cls" and f.cls:
+                            cq = f"{f.mod}.{f.cls}"
+                        else:
+                            c = repo.chase(f.mod, n.value.func.id)
+                            if c in repo.classes:
+                                cq = c
         if cq:
             for k in repo.mro(cq):
                 cn = repo.classes.get(k)
